@@ -43,6 +43,7 @@ def main():
     ap.add_argument('--checks', default=None)
     ap.add_argument('--tier', default='quick')
     ap.add_argument('--skip-tests', action='store_true')
+    ap.add_argument('--name', default=None, help='directory name under /verif/seeded (default <ID>-<k>)')
     a = ap.parse_args()
     patch = os.path.join(a.src, f'patch{a.k}.diff')
     demo = os.path.join(a.src, f'demo{a.k}.py')
@@ -108,7 +109,7 @@ def main():
         shutil.rmtree(d, ignore_errors=True)
         shutil.rmtree(clean, ignore_errors=True)
         sh('git -C /verif checkout -- evidence; rm -rf /verif/replays/*')
-    out_dir = os.path.join(VERIF, 'seeded', f'{a.pid}-{a.k}')
+    out_dir = os.path.join(VERIF, 'seeded', a.name or f'{a.pid}-{a.k}')
     os.makedirs(out_dir, exist_ok=True)
     shutil.copy(patch, os.path.join(out_dir, 'patch.diff'))
     shutil.copy(demo, os.path.join(out_dir, 'demo.py'))
@@ -125,7 +126,7 @@ def main():
         if 'first_evaluation' in old:
             meta['first_evaluation'] = old['first_evaluation']
     json.dump(meta, open(mp, 'w'), indent=1)
-    print(f'{a.pid}-{a.k}: confirmed={meta["confirmed"]} caught_by={meta.get("caught_by")}')
+    print(f'{a.name or (a.pid + "-" + a.k)}: confirmed={meta["confirmed"]} caught_by={meta.get("caught_by")}')
     return 0
 
 
